@@ -85,7 +85,7 @@ MANIFEST = dict(
 )
 
 IMPORTS = ['Coq.NArith.NArith', 'Coq.ZArith.ZArith', 'Coq.Lists.List', 'Coq.Bool.Bool', 'SV.Fmt.DmxCodes', 'SV.Fmt.DmxBin',
-           'SV.Fmt.DmxMembers', 'SV.Fmt.DmxMembersParse', 'SV.Fmt.DmxMembersKv2', 'SV.Fmt.DmxKv1', 'SV.Fmt.DmxKv1Sel', 'SV.Fmt.DmxScalar', 'SV.Text.Str', 'SV.Text.Tokenizer', 'SV.Text.TokGen', 'SV.Fmt.DmxKv2',
+           'SV.Fmt.DmxMembers', 'SV.Fmt.DmxMembersParse', 'SV.Fmt.DmxMembersKv2', 'SV.Fmt.DmxKv1', 'SV.Fmt.DmxKv1Sel', 'SV.Fmt.DmxScalar', 'SV.Text.Str', 'SV.Text.Tokenizer', 'SV.Text.TokGen', 'SV.Fmt.DmxKv2', 'SV.Fmt.DmxKv2Graph',
            'SV.Num.Dec6', 'SV.Fmt.DmxValText', 'SV.Fmt.DmxHeader', 'SV.Gen.DmxCodes_gen', 'SV.Fmt.DmxKv2Inst']
 PRE_BIN = '''Import ListNotations. Open Scope N_scope.
 Definition idenc (_ : enc) (s : str) : bytes := s.
@@ -740,7 +740,7 @@ def corr_kv2(ck: Ck) -> None:
 
 
 # ------------------------------------------------------------------------------------------------ KeyValues2, nested layout
-IMPORTS_KV2N = IMPORTS_KV2 + ['SV.Fmt.DmxKv2Nested']
+IMPORTS_KV2N = IMPORTS_KV2 + ['SV.Fmt.DmxKv2Nested', 'SV.Fmt.DmxKv2Graph']
 PRE_KV2N = """Import ListNotations. Open Scope N_scope.
 Fixpoint leqb {A} (f : A -> A -> bool) (a b : list A) : bool :=
   match a, b with [], [] => true | x :: a', y :: b' => f x y && leqb f a' b' | _, _ => false end.
@@ -757,12 +757,40 @@ with nitem_eqb (a b : nitem) {struct a} : bool :=
   match a, b with NStr x, NStr y => str_eqb x y | NNull, NNull => true | NRef x, NRef y => str_eqb x y
                 | NInline x, NInline y => nelem_eqb x y | _, _ => false end.
 Definition ondoc_eqb (a b : option ndoc) := match a, b with Some x, Some y => leqb nelem_eqb x y | None, None => true | _, _ => false end.
-(* per case: 0 ok, 1 model text differs from export_kv2(flat=False), 2 model parse differs from parse_kv2, 3 outside ndoc_ok *)
-Definition chk3 (c : ndoc * str * option ndoc * str * option ndoc) : N := let '(d, text, back, text2, back2) := c in
+Definition kitem_eqb (a b : kitem) := match a, b with KStr x, KStr y => str_eqb x y | KNull, KNull => true | KRef x, KRef y => str_eqb x y | _, _ => false end.
+Definition kattr_eqb (a b : kattr) := str_eqb (ka_name a) (ka_name b) && str_eqb (ka_type a) (ka_type b) && Bool.eqb (ka_arr a) (ka_arr b) && leqb kitem_eqb (ka_items a) (ka_items b).
+Definition kelem_eqb (a b : kelem) := str_eqb (ke_type a) (ke_type b) && ostr_eqb (ke_id a) (ke_id b) && str_eqb (ke_name a) (ke_name b) && leqb kattr_eqb (ke_attrs a) (ke_attrs b).
+Definition in_k (k : kelem) (l : kdoc) : bool := existsb (kelem_eqb k) l.
+(* the same elements, the same number of them, the same first one *)
+Definition perm_k (a b : kdoc) : bool :=
+  Nat.eqb (length a) (length b) && forallb (fun k => in_k k b) a && forallb (fun k => in_k k a) b &&
+  match a, b with x :: _, y :: _ => kelem_eqb x y | _, _ => false end.
+Definition gen_isroot (g : gdoc) : nat -> bool := is_root gen_fold gen_vtnames gen_rootcfg false g.
+(* per case: 0 ok, 1 model text differs from export_kv2(flat=False), 2 model parse differs from parse_kv2, 3 outside ndoc_ok,
+   5 model parse of the re-formatted text differs,
+   6 graph level: nest_doc of the exported object graph with the root rule read from the source fails or does not render to the exported text,
+   7 an element is written more than once (written_once of the tree of blocks),
+   8 the elements the reader model registers (unnest of the parsed tree) are not those of the object graph Element.parse returned
+     (same elements with references by id, same number, the returned element first; cases with every id written) *)
+Definition chk3 (c : ndoc * str * option ndoc * str * option ndoc * gdoc * bool * option gdoc) : N := let '(d, text, back, text2, back2, g, cull, gback) := c in
   if negb (ndoc_ok gen_tables gen_fold gen_vtnames d) then 3
   else if str_eqb (rendern_doc gen_tables d) text
-       then (if ondoc_eqb (parsen_text gen_tables gen_kv2_opts gen_fold gen_vtnames text) back
-             then (if ondoc_eqb (parsen_text gen_tables gen_kv2_opts gen_fold gen_vtnames text2) back2 then 0 else 5) else 2)
+       then (let p := parsen_text gen_tables gen_kv2_opts gen_fold gen_vtnames text in
+             if ondoc_eqb p back
+             then (if ondoc_eqb (parsen_text gen_tables gen_kv2_opts gen_fold gen_vtnames text2) back2
+                   then (match nest_doc g (gen_isroot g) cull with
+                         | Some dn =>
+                             if negb (str_eqb (rendern_doc gen_tables dn) text) then 6
+                             else if negb (match nest_doc g (gen_isroot g) false with Some d0 => written_once d0 | None => false end) then 7
+                             else match cull, gback, p with
+                                  | false, Some gb, Some dp => if perm_k (unnest dp) (flatten gb) then 0 else 8
+                                  | false, Some _, None => 8
+                                  | _, _, _ => 0
+                                  end
+                         | None => 6
+                         end)
+                   else 5)
+             else 2)
        else 1.
 Fixpoint bad_idx {A} (f : A -> N) (n : N) (l : list A) : list N := match l with [] => [] | x :: r => (if f x =? 0 then [] else [n * 10 + f x]) ++ bad_idx f (n + 1) r end.
 """
@@ -863,8 +891,9 @@ def corr_kv2_nested(ck: Ck) -> None:
         try:
             got, _, _ = dmx.Element.parse(io.BytesIO(data), unicode=(uni == 'silent'))
             back = f'(Some {coq_list(coq_nelem(e) for e in ntree_of(got, cull))})'
+            gback = f'(Some {coq_gdoc(gdoc_of(got))})'
         except Exception:
-            back = 'None'
+            back = gback = 'None'
             ck.count('corr_kv2n_impl_parse_error')
         text2 = reformat_kv2(ck.rng, text)
         try:
@@ -874,7 +903,9 @@ def corr_kv2_nested(ck: Ck) -> None:
             back2 = 'None'
             ck.count('corr_kv2n_impl_reformat_parse_error')
         cases.append((spec, {'unicode': uni, 'cull_uuid': cull},
-                      f'({coq_list(coq_nelem(e) for e in d)}, {_cps(text)}, {back}, {_cps(text2)}, {back2})'))
+                      f'({coq_list(coq_nelem(e) for e in d)}, {_cps(text)}, {back}, {_cps(text2)}, {back2}, '
+                      f'{coq_gdoc(gdoc_of(elems[0]))}, {"true" if cull else "false"}, {gback})'))
+        ck.hist('corr_kv2n_graph_compared', 'tree-and-parsed-graph' if (gback != 'None' and not cull) else 'tree-only')
         ck.count('corr_kv2n_cases')
         depth = text.count('\t\t\t\t')
         ck.hist('corr_kv2n_has_depth3', bool(depth))
@@ -890,7 +921,9 @@ def corr_kv2_nested(ck: Ck) -> None:
         bad += [(lo + v // 10, v % 10) for v in parse_coq_N_list(vals[0])]
     ck.obligation('correspondence:kv2-nested-text', not bad,
                   f'{len(cases)} documents: Fmt/DmxKv2Nested.v rendern_doc vs export_kv2(flat=False, cull_uuid) text (exact, roots '
-                  f'recomputed by the harness), parsen_text of that text vs the block tree of Element.parse: {len(bad)} disagreements')
+                  f'recomputed by the harness), parsen_text of that text vs the block tree of Element.parse; graph level: '
+                  f'Fmt/DmxKv2Graph.v nest_doc of the object graph with the generated root rule renders to the same text, every '
+                  f'element written once, unnest of the parsed tree = the parsed object graph: {len(bad)} disagreements')
     if cases:
         ck.sample({'kv2_nested_case': {'mode': cases[-1][1], 'spec': cases[-1][0]}})
     if bad:
@@ -899,7 +932,10 @@ def corr_kv2_nested(ck: Ck) -> None:
         ck.extra['kv2_nested_disagreement'] = {'spec': cases[i][0], 'mode': cases[i][1],
                                                'kind': {1: 'model text differs from export_kv2', 2: 'model parse differs from parse_kv2',
                                                         3: 'generated document outside ndoc_ok',
-                                                        5: 'model parse of the re-formatted text differs from parse_kv2'}.get(code, code)}
+                                                        5: 'model parse of the re-formatted text differs from parse_kv2',
+                                                        6: 'graph level: nest_doc with the root rule read from the source does not give the exported text',
+                                                        7: 'an element is written more than once',
+                                                        8: 'unnest of the parsed tree is not the object graph Element.parse returned'}.get(code, code)}
 
 
 
@@ -1402,6 +1438,11 @@ OBLIGATIONS = {
     'kv2_reader_stores_inline_elements_under_casefolded_name': 'keyfn_folded (pk_kv2_inline gen_parse)',
     'new_element_starts_with_the_name_member': 'init_member_ok gen_parse',
     'kv2_record_loop_skips_only_the_name_member': 'kv2_filter_ok gen_kv2_skip',
+    'kv2_roots_are_exported_or_used_twice_or_keyword_typed': 'root_rule_ok gen_rootcfg',
+    'kv2_name_line_written_for_every_element': 'gen_kv2_name_line_always',
+    'kv2_id_line_left_out_only_for_culled_inline_blocks': 'id_written_ok gen_kv2_id_written',
+    'property_binary_premises_hold_today': 'bin_cfg_ok gen_cfg && scalar_cfg_ok gen_scalar && sizes_match_formats gen_scalar gen_cfg && cnt_cfg_ok gen_cnt',
+    'property_kv2_premises_hold_today': 'kv2_tables_ok gen_tables && kv2_opts_ok gen_kv2_opts && vtnames_ok gen_tables gen_fold gen_vtnames && root_rule_ok gen_rootcfg',
     'kv1_element_types_distinct': 'kv1_types_distinct gen_kv1',
     'kv1_keys_written_are_keys_read': 'kv1_keys_agree gen_kv1',
     'kv1_reserved_names_cover_name_and_subkeys': 'kv1_reserved_covers gen_kv1',
@@ -1443,6 +1484,11 @@ EXPLAIN = {
     'instance:kv2_reader_stores_typed_attributes_under_casefolded_name': ['kv2', 'attribute-not-found-under-its-name'],
     'instance:kv2_reader_stores_inline_elements_under_casefolded_name': ['kv2', 'attribute-not-found-under-its-name'],
     'instance:kv2_record_loop_skips_only_the_name_member': ['kv2', ''],
+    'instance:kv2_roots_are_exported_or_used_twice_or_keyword_typed': ['kv2', ''],
+    'instance:kv2_name_line_written_for_every_element': ['kv2', ''],
+    'instance:kv2_id_line_left_out_only_for_culled_inline_blocks': ['kv2', ''],
+    'instance:property_binary_premises_hold_today': ['binary', ''],
+    'instance:property_kv2_premises_hold_today': ['kv2', ''],
     'instance:kv1_reserved_test_reads_the_casefolded_name': ['kv1-bridge', 'reserved-leaf-name'],
     'instance:kv1_duplicate_test_reads_the_casefolded_name': ['kv1-bridge', 'duplicate-leaf-names'],
     'instance:kv1_reserved_names_cover_name_and_subkeys': ['kv1-bridge', 'reserved-leaf-name'],
@@ -1470,6 +1516,32 @@ def runtime_agreement(ck: Ck, side: dict) -> None:
     f_ok = ('name'.casefold() == 'name' and k.get('k_subkeys_w', '').casefold() == k.get('k_subkeys_w')
             and k.get('k_value_w', 'value').casefold() != 'name')
     ck.obligation('casefold-fixes-reserved-names', f_ok, "fold_ok for str.casefold: 'name', 'subkeys' fixed, 'value' not folded to 'name'")
+
+
+def theorems_bundled(ck: Ck, props_file: str) -> None:
+    """ck.theorems(props_file) at a fraction of the cost: one `Print Assumptions` on the conjunction of all theorems of the
+    file instead of one command per theorem (each command walks the environment again: 87 commands take 30-45 s of CPU).
+    The assumptions of the conjunction are the union of the assumptions of its parts, so "Closed under the global
+    context" for the bundle is that answer for every theorem.  Anything else (an axiom somewhere, a failure, unexpected
+    output) falls back to the per-theorem path of the harness, which attributes and reports it."""
+    from harness import common as C
+    txt = (C.ROCQ / props_file).read_text()
+    names = re.findall(r"^\s*(?:Theorem|Lemma|Corollary)\s+([A-Za-z0-9_']+)", txt, re.M)
+    mod = 'SV.' + props_file[:-2].replace('/', '.')
+    ok = False
+    if names:
+        term = names[-1]
+        for n in reversed(names[:-1]):
+            term = f'(conj {n} {term})'
+        body = f'Require Import {mod}.\nDefinition all_theorems_of_the_file := {term}.\nPrint Assumptions all_theorems_of_the_file.\n'
+        rc, out = ck.coq_scratch(body, 'assumptions')
+        ok = rc == 0 and C._split_assumptions(out, 1) == [[]] and out.count('Closed under the global context') == 1
+    if not ok:
+        ck.theorems(props_file)
+        return
+    for n in names:
+        ck.axioms[n] = []
+        ck.obligation(f'theorem:{n}', True, 'Qed; axioms: none (closed under the global context)')
 
 
 def run(ck: Ck) -> None:
@@ -1521,7 +1593,7 @@ def run(ck: Ck) -> None:
         stage_s[name] = round(t1 - t0[0], 1)
         t0[0] = t1
     if built:
-        stage('print_assumptions', ck.theorems, 'Props/C14.v')
+        stage('print_assumptions', theorems_bundled, ck, 'Props/C14.v')
         stage('instance_obligations', ck.instance_obligations, IMPORTS, OBLIGATIONS)
         stage('runtime', lambda: (runtime_agreement(ck, side), angle_norm_identity(ck)))
         stage('corr_scalar', corr_scalar, ck)
